@@ -188,9 +188,12 @@ def c11(ctx, t0):
         res.append(ovl_stage(ctx, 'linearizability', 'TestVerifC11', T(ctx, 900, 5400)))
     if want(ctx, 'backlog'):
         res.append(ovl_stage(ctx, 'backlog', 'TestVerifC11Backlog', T(ctx, 300, 600)))
+    if want(ctx, 'binary-frontends'):
+        ctx.build_agent()
+        res.append(ctx.run_child('binary-frontends', [ctx.build_hx(), 'c11bin'], T(ctx, 300, 900)))
     floors = {'overlapping_same_user_write_pairs': (counters(res, 'overlapping_same_user_write_pairs'), 200),
               'histories_with_upgrade_after_later_update': (counters(res, 'histories_with_upgrade_after_later_update'), 1),
-              'upgrades_executed': (counters(res, 'upgrades_executed'), 20), 'crosstalk_requests': (counters(res, 'crosstalk_requests'), 1000), 'backlog_requests': (counters(res, 'backlog_requests'), 10)}
+              'upgrades_executed': (counters(res, 'upgrades_executed'), 20), 'crosstalk_requests': (counters(res, 'crosstalk_requests'), 1000), 'backlog_requests': (counters(res, 'backlog_requests'), 10), 'racing_logins_accepted': (counters(res, 'racing_logins_accepted'), 3)}
     return finish(ctx, 'exploration', res, COMMON_ASSUME + [
         'histories are recorded at the client boundary (call before invoking, return after the reply) with one monotonic clock',
         'porcupine v1.3.0 decides linearizability of each recorded history against the sequential model in go/ovl/c11_test.go; a checker timeout is inconclusive',
